@@ -205,6 +205,11 @@ impl Command {
             }
         }
 
+        if tokens_final.is_empty() {
+            // e.g. `>a` or `<<< foo`: redirections without any command
+            return Err(String::from("syntax error: command expected"));
+        }
+
         let redirect_from = if redirects_from_type.is_empty() {
             None
         } else {
